@@ -1,0 +1,35 @@
+//go:build verif
+
+// Contracts for the deductive checks in /verif (comment-only; not part of normal builds).
+
+package managers
+
+// ghost: syncs started in reaction to a notification
+//@ ghost field G.notifSyncs mathint
+
+// sync: one push-pull exchange with the server for one datatype (network; whole-replica effect)
+//@ func (*DatatypeManager).sync
+//@   trusted one gRPC push-pull exchange (sync manager), arbitrary effect on the replica
+//@   mode math
+//@   ensures G.notifSyncs == old(G.notifSyncs) + 1
+//@   modifies *, G:notifSyncs
+
+// A notification starts a sync exactly when the datatype is behind the announced end of the log
+//@ func (*DatatypeManager).syncIfNeedPull
+//@   mode math
+//@   props C18
+//@   requires its.ctx != nil && data != nil
+//@   ensures[syncs-iff-behind] G.notifSyncs == old(G.notifSyncs) + (iface.needPull(data, sseq) ? 1 : 0)
+//@   modifies *, G:notifSyncs
+
+// ReceiveNotification: the client's own announcements are dropped (its push already brought it up to date; reacting
+// would start a second, concurrent push-pull that re-sends what was just stored); any other announcement leads to at
+// most one sync, and only of the datatype the topic names.
+//@ func (*DatatypeManager).ReceiveNotification
+//@   mode math
+//@   props C18
+//@   requires its.ctx != nil && its.ctx.Client != nil && its.dataMap != nil && (forall k string :: k in its.dataMap ==> its.dataMap[k] != nil)
+//@   requires[topic-is-collection-slash-key] contains(topic, "/")
+//@   ensures[own-notifications-are-dropped] old(its.ctx.Client.CUID) == notification.CUID ==> G.notifSyncs == old(G.notifSyncs)
+//@   ensures[at-most-one-sync] G.notifSyncs <= old(G.notifSyncs) + 1
+//@   modifies *, G:notifSyncs
